@@ -1,13 +1,14 @@
 (* C12 — no call panics, hangs or wedges the filesystem, whatever its arguments.
    The mirrors carry the panic sites of the code explicitly (Panic outcomes); here: no operation of
    the Memfs alphabet reaches one, for any state and any argument strings, and the pure helpers are
-   total.  PARTIAL: bounded time is fuel-bounded termination of the mirrors' worklist loops, proved
-   for expand's scanner (C17) and the traversal counter; for remove_all / move_p / the traversal
-   the fuel bound is exercised (a HANG outcome in the transcripts), not yet proved. *)
+   total.  Bounded time is fuel-bounded termination of the mirrors' worklist loops: proved for expand's
+   scanner (C17) and for move_p (its relocation loop finishes within 2 * entries + 2 iterations in every
+   well-formed state).  PARTIAL: for remove_all and the traversal the fuel bound is exercised (a HANG
+   outcome in the transcripts would be a mismatch), not yet proved. *)
 From stdpp Require Import gmap.
 From Coq Require Import NArith.
 From RV Require Import Base.Str Path.Clean Path.CleanFacts Path.Helpers Path.Expand Path.ExpandFacts
-  Memfs.State Memfs.Ops Memfs.Walk Memfs.WalkFacts Memfs.Step Memfs.Wf Memfs.ContentFacts.
+  Memfs.State Memfs.Ops Memfs.Walk Memfs.WalkFacts Memfs.Step Memfs.Wf Memfs.ContentFacts Memfs.WfMove.
 
 Theorem C12_step_no_panic : forall env m o, step env m o <> Panic.
 Proof. exact step_no_panic. Qed.
@@ -17,10 +18,15 @@ Theorem C12_walk_no_panic : forall sn o pre p, walk sn o pre p <> inl Panic.
 Proof. exact walk_no_panic. Qed.
 Print Assumptions C12_walk_no_panic.
 
-(* the instance remains usable: the state after any (non-move, non-traversal) call is again well-formed *)
-Theorem C12_usable_after : forall env m o m' r, WF m -> is_move o = false -> step env m o = Done (m', r) -> WF m'.
-Proof. exact wf_step_nonmove. Qed.
+(* the instance remains usable: the state after any call, successful or not, is again well-formed *)
+Theorem C12_usable_after : forall env m o m' r, WF m -> step env m o = Done (m', r) -> WF m'.
+Proof. exact wf_step. Qed.
 Print Assumptions C12_usable_after.
+
+(* move_p never runs out of fuel: its loop finishes within the bound the mirror gives it *)
+Theorem C12_move_p_terminates : forall env m s d, WF m -> move_op env m s d <> OutOfFuel.
+Proof. exact move_op_terminates. Qed.
+Print Assumptions C12_move_p_terminates.
 
 Theorem C12_clean_total : forall s, clean s <> Panic /\ clean s <> OutOfFuel.
 Proof. exact clean_total. Qed.
